@@ -109,22 +109,35 @@ static void mk_arena(carquet_arena_t *a) {
   (__CPROVER_DYNAMIC_OBJECT(b) && __CPROVER_POINTER_OFFSET(b) == 0 && (b)->size <= CQV_MAXBUF + 65536 + CQV_MAXBUF && \
    __CPROVER_OBJECT_SIZE(b) == HDR + (b)->size && (b)->used <= (b)->size)
 
-/* AINV with at most 4 blocks (3 + possibly one new); returns the number of blocks */
+/* AINV for an arena that started as mk_arena()'s list: the old blocks are still linked in order from
+ * head, at most one block was appended at the tail; returns the number of blocks.  (Checked on the
+ * harness' own block pointers: walking the list through ->next from head again makes the SAT
+ * instance explode, 47M clauses.) */
+static carquet_arena_block_t *tail_block(void) {
+  carquet_arena_block_t *last = g_n == 1 ? g_blk[0] : g_n == 2 ? g_blk[1] : g_blk[2];
+  return last->next;
+}
 static unsigned assert_ainv(const carquet_arena_t *a) {
-  __CPROVER_assert(a->head != NULL, "ainv: head present");
-  unsigned n = 0;
-  _Bool cur_seen = 0;
-  carquet_arena_block_t *b = a->head;
-  for (unsigned i = 0; i < NBLK + 1; i++) {
-    if (b == NULL) break;
-    __CPROVER_assert(BLOCK_OK(b), "ainv: block is a whole live heap object of header+size bytes, used <= size");
-    if (b == a->current) cur_seen = 1;
-    n++;
-    b = b->next;
+  __CPROVER_assert(a->head == g_blk[0], "ainv: head is the first block");
+  __CPROVER_assert(BLOCK_OK(g_blk[0]), "ainv: block 0 is a whole live heap object of header+size bytes, used <= size");
+  if (g_n >= 2) {
+    __CPROVER_assert(g_blk[0]->next == g_blk[1], "ainv: link 0->1");
+    __CPROVER_assert(BLOCK_OK(g_blk[1]), "ainv: block 1 is a whole live heap object of header+size bytes, used <= size");
   }
-  __CPROVER_assert(b == NULL, "ainv: list is NULL-terminated, at most one block was added");
-  __CPROVER_assert(cur_seen, "ainv: current is a block of the list");
-  return n;
+  if (g_n >= 3) {
+    __CPROVER_assert(g_blk[1]->next == g_blk[2], "ainv: link 1->2");
+    __CPROVER_assert(BLOCK_OK(g_blk[2]), "ainv: block 2 is a whole live heap object of header+size bytes, used <= size");
+  }
+  carquet_arena_block_t *t = tail_block();
+  if (t != NULL) {
+    __CPROVER_assert(t != g_blk[0] && t != g_blk[1] && t != g_blk[2], "ainv: appended block is a new one (no cycle)");
+    __CPROVER_assert(BLOCK_OK(t), "ainv: appended block is a whole live heap object of header+size bytes, used <= size");
+    __CPROVER_assert(t->next == NULL, "ainv: list is NULL-terminated, at most one block was added");
+  }
+  __CPROVER_assert(a->current == g_blk[0] || (g_n >= 2 && a->current == g_blk[1]) || (g_n >= 3 && a->current == g_blk[2]) ||
+                       (t != NULL && a->current == t),
+                   "ainv: current is a block of the list");
+  return g_n + (t != NULL ? 1 : 0);
 }
 
 /* the first g_n blocks are the old ones, in order, with their sizes */
@@ -138,7 +151,7 @@ static void assert_old_blocks_linked(const carquet_arena_t *a) {
 
 static void assert_arena_unchanged(const carquet_arena_t *a) {
   assert_old_blocks_linked(a);
-  __CPROVER_assert(g_blk[g_n - 1]->next == NULL, "unchanged: no block added");
+  __CPROVER_assert(tail_block() == NULL, "unchanged: no block added");
   __CPROVER_assert(g_blk[0]->used == g_used[0] && (g_n < 2 || g_blk[1]->used == g_used[1]) && (g_n < 3 || g_blk[2]->used == g_used[2]),
                    "unchanged: fill level of every block");
   __CPROVER_assert(a->current == g_olda.current && a->total_allocated == g_olda.total_allocated &&
@@ -182,7 +195,7 @@ static void alloc_post(carquet_arena_t *a, void *p, size_t size, size_t al, cons
                    "alloc: other blocks untouched");
   __CPROVER_assert(a->total_allocated == g_olda.total_allocated + size, "alloc: total_allocated grows by size");
   if (idx < 0) {
-    __CPROVER_assert(n == g_n + 1 && g_blk[g_n - 1]->next == blk && blk->next == NULL, "alloc: new block appended at the tail");
+    __CPROVER_assert(n == g_n + 1 && tail_block() == blk && blk->next == NULL, "alloc: new block appended at the tail");
     __CPROVER_assert(blk->size >= size + al && blk->size >= 65536 && (blk->size & 65535) == 0 && blk->size >= g_olda.default_block_size,
                      "alloc: new block holds the request plus worst-case padding, multiple of 64K, at least the default size");
     __CPROVER_assert(a->total_capacity == g_olda.total_capacity + blk->size, "alloc: total_capacity grows by the new block");
@@ -392,7 +405,7 @@ void h_reset(void) {
   carquet_arena_reset(&a);
   unsigned n = assert_ainv(&a);
   assert_old_blocks_linked(&a);
-  __CPROVER_assert(n == g_n && g_blk[g_n - 1]->next == NULL, "reset keeps every block");
+  __CPROVER_assert(n == g_n && tail_block() == NULL, "reset keeps every block");
   __CPROVER_assert(g_blk[0]->used == 0 && (g_n < 2 || g_blk[1]->used == 0) && (g_n < 3 || g_blk[2]->used == 0), "reset empties every block");
   __CPROVER_assert(a.current == a.head && a.total_allocated == 0 && a.total_capacity == g_olda.total_capacity, "reset: current is head, nothing allocated");
   if (g_n == 3) CQV_CANARY("reset: three blocks");
@@ -414,7 +427,7 @@ void h_save_restore(void) {
   __CPROVER_assume(sz <= H_MAXSZ && al <= 4096 && al != 0 && (al & (al - 1)) == 0);
   void *p = carquet_arena_alloc_aligned(&a, sz, al);
   unsigned n1 = assert_ainv(&a);
-  carquet_arena_block_t *added = (n1 == g_n + 1) ? g_blk[g_n - 1]->next : NULL;
+  carquet_arena_block_t *added = tail_block();
   carquet_arena_restore(&a, m);
   unsigned n2 = assert_ainv(&a);
   assert_old_blocks_linked(&a);
